@@ -22,27 +22,19 @@ pub(crate) fn snapshot<const S: usize, B>(s: &ServerBehaviour<S, B>) -> Snapshot
 where
     B: Blockstore + 'static,
 {
-    let mut peers_wantlists: Vec<_> = s
+    // want sets in their iteration order (the order `process_incoming_message` uses for the lookups of
+    // a full wantlist), waiter lists in their SmallVec order; the outer order is hash order
+    let peers_wantlists: Vec<_> = s
         .peers_wantlists
         .iter()
-        .map(|(peer, wl)| {
-            let mut cids: Vec<_> = wl.0.iter().copied().collect();
-            cids.sort_by_key(|c| c.to_bytes());
-            (*peer, cids)
-        })
+        .map(|(peer, wl)| (*peer, wl.0.iter().copied().collect::<Vec<_>>()))
         .collect();
-    peers_wantlists.sort_by_key(|(p, _)| p.to_bytes());
 
-    let mut peers_waiting_for_cid: Vec<_> = s
+    let peers_waiting_for_cid: Vec<_> = s
         .peers_waiting_for_cid
         .iter()
-        .map(|(cid, peers)| {
-            let mut peers: Vec<_> = peers.iter().map(|p| **p).collect();
-            peers.sort_by_key(|p| p.to_bytes());
-            (*cid, peers)
-        })
+        .map(|(cid, peers)| (*cid, peers.iter().map(|p| **p).collect::<Vec<_>>()))
         .collect();
-    peers_waiting_for_cid.sort_by_key(|(c, _)| c.to_bytes());
 
     Snapshot {
         peers_wantlists,
